@@ -19,6 +19,7 @@ import (
 // crashPoints lists, per kind of last step, the hook points at which the child is killed.
 var crashPoints = map[string][]string{
 	"store":   {"store.locked", "store.built", "store.idcommitted", "store.committed", "store.metaupdated"},
+	"reject":  {"store.locked"},
 	"txn":     {"txn.locked", "txn.built", "txn.idcommitted", "txn.committed", "store.committed"},
 	"create":  {"dsm.create.idpersisted", "dsm.create.recordstored", "store.idcommitted", "store.committed", "dsm.create.metastored"},
 	"delete":  {"dsm.delete.begin", "dsm.delete.setpersisted", "store.committed", "dsm.delete.metadeleted"},
